@@ -130,6 +130,18 @@ def compoundShapeBad {ω} (ws : List (LLWcs ω)) (mapping : List Nat) : Bool :=
     (List.range mapping.length).any fun i =>
       ps.getD (inv.getD (mapping.getD i 0) 0) 0 ≠ ps.getD i 0
 
+/-- `pixel_bounds` of the compound WCS from the members' bounds (pixel order): absent when some
+member has none; `ValueError` when two members disagree — at either end — about the bounds of a
+pixel axis they share (evaluated once at construction) -/
+def compoundBounds (bounds : List (Option (List (Rat × Rat)))) (mapping : List Nat) :
+    Except Err (Option (List (Rat × Rat))) :=
+  if !(bounds.all Option.isSome) then .ok none else
+  let pb := bounds.flatMap fun b => b.getD []
+  let inv := mappingInverse mapping (nInputsOf mapping)
+  if (List.range mapping.length).any fun i =>
+      pb.getD (inv.getD (mapping.getD i 0) 0) (0, 0) ≠ pb.getD i (0, 0)
+  then .error .valueError else .ok (some (selectIdx inv pb))
+
 /-- block-diagonal correlation matrix of the members over all their pixel axes -/
 def blockDiag {ω} (allPix : Nat) : List (LLWcs ω) → Nat → List (List Bool)
   | [], _ => []
